@@ -111,9 +111,9 @@ theorem transport_is_calc (g : Glue) (now : Int) (e : Entry) (reqCC resCC : Dire
   | none => exact ⟨_, rfl⟩
   | some m =>
     simp only []
-    by_cases h0 : m = 0
-    · simp only [h0, ↓reduceIte]; exact ⟨_, rfl⟩
-    · simp only [h0, ↓reduceIte]; exact ⟨_, rfl⟩
+    split
+    · exact ⟨_, rfl⟩
+    · exact ⟨_, rfl⟩
 
 /-- RFC-level strict validation implies the transport's mustValidate -/
 theorem strict_implies_mv (g : Glue) (now : Int) (e : Entry) (reqH : Header)
@@ -181,7 +181,9 @@ theorem exceeded_implies_flag (g : Glue) (now : Int) (e : Entry) (reqH : Header)
     obtain ⟨hge, hncov⟩ := h
     by_cases h0 : m = 0
     · simp [h0]
-    · simp only [h0, ↓reduceIte, Bool.and_eq_true, decide_eq_true_eq]
+    · suffices hst : (calculateFreshness g now e (parseCC reqH) (parseCC e.resp.header)).isStale = true ∧
+          (calculateFreshness g now e (parseCC reqH) (parseCC e.resp.header)).ageValue ≥ m by
+        simp [hst.1, hst.2]
       have hmne : (parseCC reqH).maxAge ≠ some 0 := by rw [hma, hm]; intro hh; cases hh; exact h0 rfl
       obtain ⟨ha, _, hl⟩ := calc_fields g now e (parseCC reqH) (parseCC e.resp.header) hmne
       rw [ha]
@@ -495,20 +497,19 @@ theorem spec_age_step (p : Str → Option Int) (s : Spec.Stored) (t0 t1 : Int) (
 /-- stale-if-error soundness: when the model's policy says yes, one of the two permitted sources
     (stored response, request) carries stale-if-error = N and the stored response is inside that
     window by the RFC definitions at the instant of the failure -/
-theorem sie_sound (g : Glue) (t0 t1 : Int) (e : Entry) (reqH : Header) (hle : t0 ≤ t1)
-    (hs : e.resp.status ≠ 304) (hT : TimesOK e) (h0 : (parseCC reqH).maxAge ≠ some 0)
-    (h : canStaleOnError (calculateFreshness g t0 e (parseCC reqH) (parseCC e.resp.header)) t1
-          [parseCC e.resp.header, parseCC reqH] = true) :
+theorem sie_sound_gen (g : Glue) (t0 t1 : Int) (e : Entry) (reqH : Header) (f : Freshness) (hle : t0 ≤ t1)
+    (hs : e.resp.status ≠ 304) (hT : TimesOK e)
+    (ha : f.ageValue = currentAge g t0 e) (hts : f.ageTimestamp = t0)
+    (hrl : f.usefulLife ≤ responseLifetime g e (parseCC e.resp.header))
+    (h : canStaleOnError f t1 [parseCC e.resp.header, parseCC reqH] = true) :
     ∃ n, (Spec.directiveSeconds modelReader e.resp.header (str% "stale-if-error") = some n ∨
           Spec.directiveSeconds modelReader reqH (str% "stale-if-error") = some n) ∧
       Spec.withinWindow modelReader g.parseTime (Spec.storedOfEntry e) t1 n = true := by
-  obtain ⟨ha, hts, hl⟩ := calc_fields g t0 e (parseCC reqH) (parseCC e.resp.header) h0
   unfold canStaleOnError at h
-  rw [ha, hts, hl] at h
+  rw [ha, hts] at h
   simp only [List.any_cons, List.any_nil, Bool.or_false, Bool.or_eq_true] at h
-  have hrl := requestLifetime_le (responseLifetime g e (parseCC e.resp.header)) (parseCC reqH)
   have core : ∀ dur, satAdd (currentAge g t0 e) (satSub t1 t0) <
-        satAdd (requestLifetime (responseLifetime g e (parseCC e.resp.header)) (parseCC reqH)) dur →
+        satAdd f.usefulLife dur →
       Spec.withinWindow modelReader g.parseTime (Spec.storedOfEntry e) t1 dur = true := by
     intro dur hlt
     unfold Spec.withinWindow
@@ -525,11 +526,11 @@ theorem sie_sound (g : Glue) (t0 t1 : Int) (e : Entry) (reqH : Header) (hle : t0
         have : 0 ≤ satSub t1 t0 := by unfold satSub; exact sat_nonneg (by omega)
         omega
       rw [h1] at hlt
-      have h2 := sat_le_max (requestLifetime (responseLifetime g e (parseCC e.resp.header)) (parseCC reqH) + dur)
+      have h2 := sat_le_max (f.usefulLife + dur)
       unfold satAdd at hlt; omega
     | some d =>
       have hlife := life_le g e hs d hd
-      have : satAdd (requestLifetime (responseLifetime g e (parseCC e.resp.header)) (parseCC reqH)) dur ≤
+      have : satAdd f.usefulLife dur ≤
           sat (Spec.freshnessLifetime modelReader g.parseTime (Spec.storedOfEntry e) + dur) := by
         unfold satAdd; exact sat_mono (by omega)
       omega
@@ -547,6 +548,17 @@ theorem sie_sound (g : Glue) (t0 t1 : Int) (e : Entry) (reqH : Header) (hle : t0
       simp only [hd, decide_eq_true_eq] at h2
       exact ⟨dur, Or.inr (by rw [seconds_eq]; exact hd), core dur h2⟩
 
+
+theorem sie_sound (g : Glue) (t0 t1 : Int) (e : Entry) (reqH : Header) (hle : t0 ≤ t1)
+    (hs : e.resp.status ≠ 304) (hT : TimesOK e) (h0 : (parseCC reqH).maxAge ≠ some 0)
+    (h : canStaleOnError (calculateFreshness g t0 e (parseCC reqH) (parseCC e.resp.header)) t1
+          [parseCC e.resp.header, parseCC reqH] = true) :
+    ∃ n, (Spec.directiveSeconds modelReader e.resp.header (str% "stale-if-error") = some n ∨
+          Spec.directiveSeconds modelReader reqH (str% "stale-if-error") = some n) ∧
+      Spec.withinWindow modelReader g.parseTime (Spec.storedOfEntry e) t1 n = true := by
+  obtain ⟨ha, hts, hl⟩ := calc_fields g t0 e (parseCC reqH) (parseCC e.resp.header) h0
+  exact sie_sound_gen g t0 t1 e reqH _ hle hs hT ha hts
+    (by rw [hl]; exact requestLifetime_le _ _) h
 
 theorem age_ne_status : sAge ≠ sStatusHeader := by decide
 theorem age_ne_fromCache : sAge ≠ sFromCache := by decide
